@@ -182,6 +182,9 @@ pub fn enter(val: *mut Val, o: usize, key: u32, stream_item: Option<(usize, usiz
 
 impl Drop for Inside {
     fn drop(&mut self) {
+        if !rt::kernel::in_sim() {
+            return;
+        }
         let panicking = rt::kernel::panicking();
         let s = ev("fin", self.key as i64, panicking as i64);
         let world = w();
@@ -253,7 +256,10 @@ fn run_steps_sync(o: usize, id: u32, body: &[Step]) {
 
 pub fn run_sync_body(val: &mut Val, o: usize, id: u32, body: &[Step]) -> u64 {
     let _inside = enter(val as *mut Val, o, id, None);
+    let b0 = blocks_now();
     run_steps_sync(o, id, body);
+    // waiting done by the closure itself (nested calls) is not waiting done by the call that runs it
+    w().ops[id as usize].blocks_inside += blocks_now() - b0;
     token(id)
 }
 
@@ -301,6 +307,9 @@ impl BodyFut {
 
 impl Drop for BodyFut {
     fn drop(&mut self) {
+        if !rt::kernel::in_sim() {
+            return;
+        }
         if self.inside.is_some() && self.pc < self.steps.len() + 1 {
             // destroyed before completion: cancelled (or unwinding)
             if (self.key & PIPE_ITEM_FLAG) == 0 {
@@ -662,6 +671,9 @@ pub fn drop_handle(h: usize) {
 struct PipeProbe(usize);
 impl Drop for PipeProbe {
     fn drop(&mut self) {
+        if !rt::kernel::in_sim() {
+            return;
+        }
         let s = ev("pipe_closure_dropped", self.0 as i64, 0);
         let st = &mut w().streams[self.0];
         st.closure_drops += 1;
@@ -901,6 +913,7 @@ pub fn exec_op(op: &Op) {
                 HandleSlot::Sched(f) => {
                     poll_stamp(h);
                     w().hrec[h].awaiting = Some(me());
+                    w().hrec[h].sync_wait = true;
                     let r = catch_unwind(|| f.sync());
                     w().hrec[h].awaiting = None;
                     match r {
